@@ -106,9 +106,12 @@ def handleText (args : List String) : String :=
 
 /-! ### `sdfc <mode> <which> <cells> <tl> <names> <dump...>`: the annotation with the CONCRETE look-ups of Model/SdfCirc.lean
 over the circuit dump (`harness/circ.py: dump_net` / `dump_names`); tl = `~` | kind `:` pin `:` index (`;` ..)* (percent-encoded)
-= `tlib.pin_index` restricted to the kinds of the circuit.  Answer: `<array | raise> <look-ups>`; look-ups = one item per entry
+= `tlib.pin_index` restricted to the kinds of the circuit.  Answer: `<array | raise> <look-ups> wf:<0|1>` (`wf` = `NNet.wf` of the dump,
+the hypothesis of every look-up specification of Props/C14.lean, second audit item C14); look-ups = one item per entry
 in loop order (`,`-separated, `~` when there is none, `-` when there is no top-level block): `r` raise, `s` warn-and-skip, or the
-line index — for the INTERCONNECT loop of EVERY entry, all-zero ones included (the look-up itself, before the skip test). -/
+line index — for the INTERCONNECT loop of EVERY entry, all-zero ones included (the look-up itself, before the skip test).
+which = `icx` (hypotheses and exits of `C14.interconnect_lookup_exits`): answer `wf:<0|1>,icStruct:<0|1> <exits>`, exits = one item per
+INTERCONNECT entry: `r` raise, `wp` warn "No line to annotate pin", `wn` warn "No branchfork", or the line index (`icLookX`). -/
 def parseTl (s : String) : PinIdx :=
   let rows := (splitList s ";").filterMap fun r => match r.splitOn ":" with
     | [k, p, i] => some ((unpct k, unpct p), i.toNat!)
@@ -120,6 +123,13 @@ def showLook : Look → String
   | .skip => "s"
   | .line l => toString l
 
+/-- the exits of `icLookX`: `r` raise, `wp` warn "No line to annotate pin", `wn` warn "No branchfork", or the line index -/
+def showExit : IcExit → String
+  | .raise => "r"
+  | .warnPin => "wp"
+  | .warnNoBranch => "wn"
+  | .line l => toString l
+
 def handleC (args : List String) : String :=
   match args with
   | mode :: which :: cells :: tl :: names :: dump =>
@@ -129,16 +139,21 @@ def handleC (args : List String) : String :=
     let df := parse m B
     let C : KV.Transform.NNet := { net := KV.Drv.Transform.parseNet (" ".intercalate dump), names := KV.Drv.Transform.parseNames names }
     let T := parseTl tl
-    if which == "io" then
+    if which == "icx" then
+      let exits := match icEntries df with
+        | none => "-"
+        | some es => joinOr "," (es.map fun (e : Entry) => if slashOK e.a && slashOK e.b then showExit (icLookXE C T e) else "r")
+      s!"wf:{if C.wf then 1 else 0},icStruct:{if icStructOKB C then 1 else 0} {exits}"
+    else if which == "io" then
       let looks := (namedEntries df).map fun p => showLook (ioLook C T p.1 p.2)
       let arr := match iopathsC C T df with | some A => showArr A C.net.lines.size | none => "raise"
-      s!"{arr} {joinOr "," looks}"
+      s!"{arr} {joinOr "," looks} wf:{if C.wf then 1 else 0}"
     else
       let looks := match icEntries df with
         | none => "-"
         | some es => joinOr "," (es.map fun (e : Entry) => if slashOK e.a && slashOK e.b then showLook (icLookE C T e) else "r")
       let arr := match interconnectsC C T df with | some A => showArr A C.net.lines.size | none => "raise"
-      s!"{arr} {looks}"
+      s!"{arr} {looks} wf:{if C.wf then 1 else 0}"
   | _ => "bad-args"
 
 def handle (cmd : String) (args : List String) : Option String :=
